@@ -558,7 +558,7 @@ func (c *Client) handleFetch(seqNum uint32) error {
 
 			item = FetchItemDataRFC822Size{Size: size}
 		case "UID":
-			if !dec.ExpectSP() || !dec.ExpectUID(&uid) {
+			if !dec.ExpectSP() || !dec.ExpectUID(&uid) || !dec.Expect(uid != 0, "non-zero UID") {
 				return dec.Err()
 			}
 
